@@ -17,19 +17,30 @@ instance decMono : (k : Nat) → (ops : List Op) → Decidable (Mono k ops)
   | _, .rcvd _ x :: rest => @instDecidableAnd _ _ _ (decMono x rest)
   | _, .health x :: rest => @instDecidableAnd _ _ _ (decMono x rest)
 
-/-- time of an EFFECTIVE sent / received packet (the ops that assign `last_effective_comm`) -/
+/-- time of an effective RECEIVED packet (always restarts the idle period) -/
 def Op.effTime : Op → Option Nat
-  | .sent true x => some x
   | .rcvd true x => some x
   | _ => none
 
-def effStep (acc : Option Nat) (op : Op) : Option Nat :=
-  match op.effTime with
-  | some x => some x
-  | none => acc
+/-- an effective packet, sent or received -/
+def Op.isEff : Op → Bool
+  | .sent true _ => true
+  | .rcvd true _ => true
+  | _ => false
 
-/-- time of the LAST effective sent / received packet of a history -/
-def lastEff (ops : List Op) : Option Nat := ops.foldl effStep none
+/-- History-level RFC 9000 §10.1 bookkeeping: (time of the last restart of the idle period, "an effective packet
+has been sent since the last receive").  An effective receive restarts; an effective send restarts only if it
+is the first one since the last received packet. -/
+def rstStep (acc : Option Nat × Bool) : Op → Option Nat × Bool
+  | .sent true x => if acc.2 then acc else (some x, true)
+  | .rcvd true x => (some x, false)
+  | .rcvd false _ => (acc.1, false)
+  | _ => acc
+
+def restart (ops : List Op) : Option Nat × Bool := ops.foldl rstStep (none, false)
+
+/-- time of the LAST restart event of a history -/
+def lastEff (ops : List Op) : Option Nat := (restart ops).1
 
 /-- the clock after a history that started at clock `k` -/
 def clockStep (k : Nat) (op : Op) : Nat := op.time.getD k
@@ -53,76 +64,113 @@ theorem mono_append_left {a b : List Op} : ∀ {k : Nat}, Mono k (a ++ b) → Mo
 
 theorem effTime_time {op : Op} {x : Nat} (h : op.effTime = some x) : op.time = some x := by
   cases op with
-  | sent e y => cases e <;> simp_all [Op.effTime, Op.time]
+  | sent e y => simp [Op.effTime] at h
   | rcvd e y => cases e <;> simp_all [Op.effTime, Op.time]
   | health y => simp [Op.effTime] at h
   | negotiate r => simp [Op.effTime] at h
 
 theorem lastEff_nil : lastEff [] = none := rfl
 
-theorem lastEff_snoc (ops : List Op) (op : Op) : lastEff (ops ++ [op]) = effStep (lastEff ops) op := by
-  simp [lastEff, List.foldl_append]
+theorem restart_snoc (ops : List Op) (op : Op) : restart (ops ++ [op]) = rstStep (restart ops) op := by
+  simp [restart, List.foldl_append]
 
-private theorem foldl_effStep_none_iff (ops : List Op) : ∀ acc : Option Nat,
-    ops.foldl effStep acc = none ↔ acc = none ∧ ∀ op ∈ ops, op.effTime = none := by
+theorem lastEff_snoc (ops : List Op) (op : Op) : lastEff (ops ++ [op]) = (rstStep (restart ops) op).1 := by
+  simp [lastEff, restart_snoc]
+
+private theorem foldl_rst_none_iff (ops : List Op) : ∀ acc : Option Nat × Bool, (acc.2 = true → acc.1.isSome = true) →
+    ((ops.foldl rstStep acc).1 = none ↔ acc.1 = none ∧ ∀ op ∈ ops, op.isEff = false) := by
   induction ops with
-  | nil => intro acc; simp
+  | nil => intro acc _; simp
   | cons op ops ih =>
-    intro acc
+    intro acc ha
     rw [List.foldl_cons, ih]
-    unfold effStep
-    cases h : op.effTime <;> simp [h]
+    · cases op with
+      | sent e x =>
+        cases e
+        · simp [rstStep, Op.isEff]
+        · by_cases hf : acc.2 = true
+          · have := ha hf
+            cases h1 : acc.1 <;> simp_all [rstStep, Op.isEff]
+          · simp [rstStep, Op.isEff, hf]
+      | rcvd e x => cases e <;> simp [rstStep, Op.isEff]
+      | health x => simp [rstStep, Op.isEff]
+      | negotiate r => simp [rstStep, Op.isEff]
+    · cases op with
+      | sent e x =>
+        cases e
+        · simpa [rstStep] using ha
+        · by_cases hf : acc.2 = true <;> simp_all [rstStep]
+      | rcvd e x => cases e <;> simp [rstStep]
+      | health x => simpa [rstStep] using ha
+      | negotiate r => simpa [rstStep] using ha
 
 /-- `lastEff` is `none` exactly when the history contains no effective sent / received packet. -/
-theorem lastEff_eq_none_iff (ops : List Op) : lastEff ops = none ↔ ∀ op ∈ ops, op.effTime = none := by
-  simp [lastEff, foldl_effStep_none_iff]
+theorem lastEff_eq_none_iff (ops : List Op) : lastEff ops = none ↔ ∀ op ∈ ops, op.isEff = false := by
+  simp [lastEff, restart, foldl_rst_none_iff]
 
-private theorem foldl_effStep_some (ops : List Op) : ∀ (acc : Option Nat) (c0 : Nat),
-    ops.foldl effStep acc = some c0 → acc = some c0 ∨ ∃ op ∈ ops, op.effTime = some c0 := by
+private theorem foldl_rst_some (ops : List Op) : ∀ (acc : Option Nat × Bool) (c0 : Nat),
+    (ops.foldl rstStep acc).1 = some c0 → acc.1 = some c0 ∨ ∃ op ∈ ops, op.isEff = true ∧ op.time = some c0 := by
   induction ops with
   | nil => intro acc c0 h; exact Or.inl h
   | cons op ops ih =>
     intro acc c0 h
     rw [List.foldl_cons] at h
     rcases ih _ _ h with h1 | ⟨o, ho, he⟩
-    · unfold effStep at h1
-      cases hop : op.effTime with
-      | none => rw [hop] at h1; exact Or.inl h1
-      | some y =>
-        rw [hop] at h1
-        exact Or.inr ⟨op, List.mem_cons_self, by rw [hop]; simpa using h1⟩
+    · cases op with
+      | sent e x =>
+        cases e
+        · exact Or.inl h1
+        · simp only [rstStep] at h1
+          by_cases hf : acc.2 = true
+          · simp [hf] at h1; exact Or.inl h1
+          · simp [hf] at h1; exact Or.inr ⟨_, List.mem_cons_self, rfl, by simp [Op.time, h1]⟩
+      | rcvd e x =>
+        cases e
+        · exact Or.inl h1
+        · simp only [rstStep] at h1; exact Or.inr ⟨_, List.mem_cons_self, rfl, by simpa [Op.time] using h1⟩
+      | health x => exact Or.inl h1
+      | negotiate r => exact Or.inl h1
     · exact Or.inr ⟨o, List.mem_cons_of_mem _ ho, he⟩
 
-/-- `lastEff` really is the time of some effective op of the history. -/
+/-- `lastEff` really is the time of some effective (sent or received) op of the history. -/
 theorem lastEff_mem {ops : List Op} {c0 : Nat} (h : lastEff ops = some c0) :
-    ∃ op ∈ ops, op.effTime = some c0 := by
-  rcases foldl_effStep_some ops none c0 h with h | h
+    ∃ op ∈ ops, op.isEff = true ∧ op.time = some c0 := by
+  rcases foldl_rst_some ops (none, false) c0 h with h | h
   · cases h
   · exact h
 
-/-! ### the timer tracks `lastEff` (no hypothesis on times) -/
+/-! ### the timer tracks the §10.1 restart state (no hypothesis on times) -/
 
-theorem step_lastComm (tm : Timer) (op : Op) : (step tm op).1.lastComm = effStep tm.lastComm op := by
+theorem step_restart (tm : Timer) (op : Op) :
+    ((step tm op).1.lastComm, (step tm op).1.sentSinceRcvd) = rstStep (tm.lastComm, tm.sentSinceRcvd) op := by
   cases op with
-  | sent e x => cases e <;> simp [step, onSent, effStep, Op.effTime]
+  | sent e x =>
+    cases e
+    · simp [step, onSent, rstStep]
+    · by_cases hf : tm.sentSinceRcvd = true <;> simp [step, onSent, rstStep, hf]
   | rcvd e x =>
-    cases e <;> by_cases hb : tm.idleBegin.isSome <;> simp [step, onRcvd, effStep, Op.effTime, hb]
+    cases e <;> by_cases hb : tm.idleBegin.isSome <;> simp [step, onRcvd, rstStep, hb]
   | health x =>
-    simp only [step, health, effStep, Op.effTime]
+    simp only [step, health, rstStep]
     split <;> (try split) <;> (try split) <;> simp_all
-  | negotiate r => simp [step, effStep, Op.effTime]
+  | negotiate r => simp [step, rstStep]
 
-theorem run_lastComm (ops : List Op) : ∀ tm : Timer,
-    (run tm ops).lastComm = ops.foldl effStep tm.lastComm := by
+theorem run_restart (ops : List Op) : ∀ tm : Timer,
+    ((run tm ops).lastComm, (run tm ops).sentSinceRcvd) = ops.foldl rstStep (tm.lastComm, tm.sentSinceRcvd) := by
   induction ops with
   | nil => intro tm; rfl
   | cons op ops ih =>
     intro tm
-    show (run (step tm op).1 ops).lastComm = _
-    rw [ih, step_lastComm, List.foldl_cons]
+    show ((run (step tm op).1 ops).lastComm, (run (step tm op).1 ops).sentSinceRcvd) = _
+    rw [ih, step_restart, List.foldl_cons]
 
-theorem run_init_lastComm (c : Cfg) (ops : List Op) : (run { cfg := c } ops).lastComm = lastEff ops :=
-  run_lastComm ops _
+theorem run_init_lastComm (c : Cfg) (ops : List Op) : (run { cfg := c } ops).lastComm = lastEff ops := by
+  have := run_restart ops { cfg := c }
+  exact congrArg Prod.fst this
+
+theorem run_init_flag (c : Cfg) (ops : List Op) : (run { cfg := c } ops).sentSinceRcvd = (restart ops).2 := by
+  have := run_restart ops { cfg := c }
+  exact congrArg Prod.snd this
 
 /-! ### idle only begins after some effective communication (no hypothesis on times) -/
 
@@ -131,7 +179,10 @@ def IdleHasComm (tm : Timer) : Prop := tm.idleBegin.isSome → tm.lastComm.isSom
 theorem step_idleHasComm (tm : Timer) (op : Op) (h : IdleHasComm tm) : IdleHasComm (step tm op).1 := by
   unfold IdleHasComm at *
   cases op with
-  | sent e x => cases e <;> simp_all [step, onSent]
+  | sent e x =>
+    cases e
+    · simp_all [step, onSent]
+    · by_cases hf : tm.sentSinceRcvd = true <;> simp_all [step, onSent]
   | rcvd e x =>
     cases e <;> by_cases hb : tm.idleBegin.isSome <;> simp_all [step, onRcvd]
   | health x =>
